@@ -108,6 +108,35 @@ impl Iterator for VecIter {
     }
 }
 
+/// A cloneable, deliberately *non-fused* iterator: the input arrives in two pieces, with one
+/// `None` between them (and `None` at the very end).
+#[derive(Clone)]
+pub struct PiecesIter {
+    data: Rc<Vec<char>>,
+    pos: usize,
+    split: usize,
+    gap_reported: bool,
+}
+impl PiecesIter {
+    pub fn new(s: &str, split: usize) -> PiecesIter {
+        PiecesIter { data: Rc::new(s.chars().collect()), pos: 0, split, gap_reported: false }
+    }
+}
+impl Iterator for PiecesIter {
+    type Item = char;
+    fn next(&mut self) -> Option<char> {
+        if self.pos == self.split && !self.gap_reported {
+            self.gap_reported = true;
+            return None;
+        }
+        let c = self.data.get(self.pos).copied();
+        if c.is_some() {
+            self.pos += 1;
+        }
+        c
+    }
+}
+
 pub trait CustomCode {
     fn code(self) -> u32;
 }
@@ -218,6 +247,9 @@ pub const CTOR_FROM_ITER_WITH_STATE: u8 = 1;
 pub const CTOR_NEW: u8 = 2;
 pub const CTOR_FROM_ITER: u8 = 3;
 pub const CTOR_FROM_CHARS_ITER: u8 = 4;
+/// `new_from_iter_with_state` over a non-fused iterator that reports end of input after `split`
+/// characters and then goes on
+pub const CTOR_PIECES: u8 = 5;
 
 /// How to run one lexer: everything the explorer varies.
 #[derive(Clone, Debug, Default)]
@@ -229,6 +261,8 @@ pub struct RunArgs<'a> {
     pub nones: usize,
     /// do not record `match_()` text in action events (long inputs: the log would be quadratic)
     pub no_text: bool,
+    /// CTOR_PIECES: number of characters before the iterator's first `None`
+    pub split: usize,
 }
 
 pub enum Mode<'a> {
@@ -297,6 +331,7 @@ macro_rules! glue {
                     *l.state() = H::new(a.script, false);
                     run_any(l, a, mode)
                 }
+                CTOR_PIECES => run_any($L::new_from_iter_with_state(PiecesIter::new(a.input, a.split), H::new(a.script, false)), a, mode),
                 _ => run_any($L::new_from_iter_with_state(a.input.chars(), H::new(a.script, false)), a, mode),
             }
         }
